@@ -293,6 +293,28 @@ Definition slice (l : list Z) (p n : Z) : list Z := firstn (Z.to_nat n) (skipn (
 Definition list_eqb (a b : list Z) : bool :=
   (length a =? length b)%nat && forallb (fun p => fst p =? snd p) (combine a b).
 
+(* what the writer's completed calls have committed, read off its call and result logs alone: a successful
+   write commits its bytes; a commit commits the bytes of the successful amends since the last begin;
+   every other call/result commits nothing.  State = (bytes pending in the open transaction, committed). *)
+Definition wapply (call : wcall) (res : wres) (st : option (list Z) * list Z) : option (list Z) * list Z :=
+  match call, res with
+  | WWrite bs, WrWrote n => (None, if n =? 0 then snd st else snd st ++ bs)
+  | WBegin, WrBegun => (Some [], snd st)
+  | WAmend bs, WrAmend true => (match fst st with Some p => Some (p ++ bs) | None => None end, snd st)
+  | WCommit, WrCommitted => (None, snd st ++ match fst st with Some p => p | None => [] end)
+  | _, _ => st
+  end.
+(* both logs newest first, the calls aligned with their results *)
+Fixpoint wfold (calls : list wcall) (res : list wres) : option (list Z) * list Z :=
+  match calls, res with
+  | c :: cs, r :: rs => wapply c r (wfold cs rs)
+  | _, _ => (None, [])
+  end.
+(* the call in progress, if any, has no result yet *)
+Definition completed_calls (wl : wloc) : list wcall :=
+  match wpcs wl with WIdle => wcalls wl | _ => tl (wcalls wl) end.
+Definition writes_committed (s : state) : list Z := snd (wfold (completed_calls (sw s)) (wresl (sw s))).
+
 (* walk the reader's results oldest first: every successful read/peek returned exactly the
    committed bytes at the current stream position; reads and skips advance it *)
 Fixpoint stream_ok (com : list Z) (pos : Z) (res : list rres) : bool :=
